@@ -226,6 +226,13 @@ fn call_everything(case: &GCase, g: &GS, rng: &mut Rng, want_dump: bool) -> (u64
     r.call("set_all_edge_weights", "NaN".into(), || graph_str(&g.set_all_edge_weights(f64::NAN)));
     r.call("get_subgraph", "[]".into(), || graph_str(&g.get_subgraph(&[])));
     r.call("get_subgraph", "all".into(), || graph_str(&g.get_subgraph(&names)));
+    if names.len() >= 2 {
+        let mut rep: Vec<String> = names.clone();
+        let last = rep.len() - 1;
+        rep[last] = rep[0].clone();
+        r.call("get_subgraph", "n entries, one repeated".into(), || graph_str(&g.get_subgraph(&rep)));
+        r.call("multi_source", "n entries, one repeated".into(), || res(dijkstra::multi_source(g, false, rep.clone(), None, None, false, true), |m| format!("{}", m.len())));
+    }
     // ---- centralities
     for w in [false, true] {
         for b in [false, true] {
@@ -240,7 +247,20 @@ fn call_everything(case: &GCase, g: &GS, rng: &mut Rng, want_dump: bool) -> (u64
     // ---- clustering family: full, a proper subset, an absent name
     let subset: Vec<String> = names.iter().take(1).cloned().collect();
     let bad = vec![absent.clone()];
-    let subsets: Vec<(String, Option<&[String]>, bool)> = vec![("None".into(), None, true), ("first".into(), if subset.is_empty() { None } else { Some(&subset[..]) }, true), ("absent".into(), Some(&bad[..]), false)];
+    // as many (and more) entries as nodes, but with one node left out and others repeated
+    let mut repeated: Vec<String> = names.clone();
+    if repeated.len() >= 2 {
+        let last = repeated.len() - 1;
+        repeated[last] = repeated[0].clone();
+    }
+    let mut repeated_long: Vec<String> = names.iter().skip(1).cloned().collect();
+    repeated_long.extend(names.iter().skip(1).cloned());
+    repeated_long.extend(names.iter().skip(1).take(1).cloned());
+    let mut subsets: Vec<(String, Option<&[String]>, bool)> = vec![("None".into(), None, true), ("first".into(), if subset.is_empty() { None } else { Some(&subset[..]) }, true), ("absent".into(), Some(&bad[..]), false)];
+    if names.len() >= 2 {
+        subsets.push(("n entries, one node left out".into(), Some(&repeated[..]), true));
+        subsets.push(("2n-1 entries, first node left out".into(), Some(&repeated_long[..]), true));
+    }
     for (label, sub, existing) in &subsets {
         for w in [false, true] {
             r.call("clustering", format!("{},{}", w, label), || res(cluster::clustering(g, w, *sub), |m| fmap(&m)));
@@ -508,6 +528,21 @@ pub fn run_c20(a: &Args) {
                 if let Some(first) = case.edges.first().cloned() {
                     case.edges = vec![first; if specs.multi { 3 } else { 1 }];
                 }
+            }
+            2 | 3 if case.wclass.weighted() && !case.edges.is_empty() => {
+                // finite weights at the ends of the f64 range: sums of two of them overflow to
+                // infinity, products underflow to zero
+                let maxw = case.edges.iter().map(|e| e.2.abs()).fold(0.0, f64::max).max(1e-300);
+                let scale = if r % 5 == 2 { 1.2e308 / maxw } else { 1e-310 / maxw };
+                for e in case.edges.iter_mut() {
+                    e.2 *= scale;
+                }
+                if specs.multi {
+                    // two parallel edges whose weights cannot be added
+                    let first = case.edges[0];
+                    case.edges.push(first);
+                }
+                ctx::count(if r % 5 == 2 { "reach:weights-near-f64-max" } else { "reach:subnormal-weights" });
             }
             _ => {}
         }
